@@ -1,6 +1,8 @@
 import MidnightZK.Model.C07.Poseidon
 import MidnightZK.Gen.C07Poseidon
 import MidnightZK.Proofs.C07.Eval
+import MidnightZK.Proofs.C07.ShaSpec
+import MidnightZK.Proofs.C07.Varlen
 /-!
 # C07 — hash gadgets equal their reference functions on every message
 Property theorems (helper lemmas live in `MidnightZK/Proofs/C07`).
@@ -100,6 +102,220 @@ example :
     permutationCpu shippedFp (PreComputed.init shippedFp 5 5) [⟨0⟩, ⟨1⟩, ⟨2⟩]
       = textbook shippedFp [⟨0⟩, ⟨1⟩, ⟨2⟩] ∧
     textbook shippedFp [⟨0⟩, ⟨1⟩, ⟨2⟩] ≠ [⟨0⟩, ⟨1⟩, ⟨2⟩] := by
+  decide +kernel
+
+/-! ## Poseidon: variable-length hashing -/
+
+section
+variable {F : Type} [CommRing F]
+
+/-- **varlen_select_spec.** `poseidon_varlen` (shipped shape `RATE = 2`, `WIDTH = 3`, any even
+`MAX_LEN`, any permutation function): for every payload of length `len ≤ MAX_LEN` placed in the
+buffer as `assign_with_filler` does, and every value of the filler cells, the digest is the
+fixed-length hash `PoseidonChip::hash(payload)` (capacity cell = `len`). Holds for the code after fix
+7fb7af7; before it the statement was false for odd `len` and non-zero filler. -/
+theorem varlen_select_spec (P : PParams F) (ofNat : Nat → F) (perm : List F → List F) (maxLen : Nat)
+    (data : List F) (filler : F)
+    (hr : P.rate = 2) (hw : P.width = 3) (hM : maxLen % 2 = 0) (hl : data.length ≤ maxLen) :
+    some (varlen P ofNat perm maxLen (vecBuffer maxLen P.rate data filler) data.length)
+      = hash P ofNat perm data := by
+  unfold varlen hash Sponge.squeeze Sponge.absorb Sponge.init
+  have hn : (maxLen + 2 - 1) / 2 = maxLen / 2 := by omega
+  simp only [hr, hw, List.nil_append, gt_iff_lt, Nat.lt_irrefl, if_false, ne_eq, not_true_eq_false,
+    Option.map_some, hn, Option.getD_some]
+  rw [varlen_loop P perm maxLen data filler hr hw hM hl]
+
+/-- **varlen_filler_independent.** The var-len digest does not depend on the content of the unused
+cells of the buffer. -/
+theorem varlen_filler_independent (P : PParams F) (ofNat : Nat → F) (perm : List F → List F)
+    (maxLen : Nat) (data : List F) (f1 f2 : F)
+    (hr : P.rate = 2) (hw : P.width = 3) (hM : maxLen % 2 = 0) (hl : data.length ≤ maxLen) :
+    varlen P ofNat perm maxLen (vecBuffer maxLen P.rate data f1) data.length
+      = varlen P ofNat perm maxLen (vecBuffer maxLen P.rate data f2) data.length := by
+  have h1 := varlen_select_spec P ofNat perm maxLen data f1 hr hw hM hl
+  have h2 := varlen_select_spec P ofNat perm maxLen data f2 hr hw hM hl
+  exact Option.some.inj (h1.trans h2.symm)
+
+end
+
+/-- Non-vacuity on the real field: payload of odd length 1 in a buffer of 4 with a non-zero
+filler (the regression of the fixed defect), digest = hash of the payload and ≠ 0. -/
+example :
+    let perm := textbook shippedFp
+    let ofNat := Fp.ofNat Gen.p
+    some (varlen shippedFp ofNat perm 4 (vecBuffer 4 2 [⟨7⟩] ⟨99⟩) 1) = hash shippedFp ofNat perm [⟨7⟩] ∧
+    hash shippedFp ofNat perm [⟨7⟩] ≠ some ⟨0⟩ := by
+  decide +kernel
+
+/-! ## SHA-2 / RIPEMD-160: constants, padding, spread arithmetic of the chips -/
+
+/-- The SHA-256 tables in `sha256_chip.rs` are the published ones: `ROUND_CONSTANTS[i]` = first 32
+bits of the fractional part of the cube root of the `i`-th prime, `IV[i]` = first 32 bits of the
+fractional part of the square root of the `i`-th prime (FIPS 180-4 §4.2.2, §5.3.3). -/
+theorem sha256_constants_published :
+    Gen.sha256K.length = 64 ∧ Gen.sha256IV.length = 8 ∧
+    ((firstPrimes 64).zip Gen.sha256K).all (fun pc => isFracRoot 3 32 pc.1 pc.2) = true ∧
+    ((firstPrimes 8).zip Gen.sha256IV).all (fun pc => isFracRoot 2 32 pc.1 pc.2) = true := by
+  decide +kernel
+
+/-- Same for the SHA-512 tables of `sha512_chip.rs` (64 fractional bits, 80 primes; §4.2.3, §5.3.5). -/
+theorem sha512_constants_published :
+    Gen.sha512K.length = 80 ∧ Gen.sha512IV.length = 8 ∧
+    ((firstPrimes 80).zip Gen.sha512K).all (fun pc => isFracRoot 3 64 pc.1 pc.2) = true ∧
+    ((firstPrimes 8).zip Gen.sha512IV).all (fun pc => isFracRoot 2 64 pc.1 pc.2) = true := by
+  decide +kernel
+
+/-- The RIPEMD-160 tables of `ripemd160_chip.rs`: `K = 0, ⌊2^30·√2⌋, ⌊2^30·√3⌋, ⌊2^30·√5⌋, ⌊2^30·√7⌋`,
+`K' = ⌊2^30·∛2⌋, ⌊2^30·∛3⌋, ⌊2^30·∛5⌋, ⌊2^30·∛7⌋, 0`; the IV is the little-endian nibble pattern;
+every row of `R`, `R'` is a permutation of `0..15`, rotation amounts are in `5..15`. -/
+theorem ripemd160_constants_published :
+    Gen.rmdK.head? = some 0 ∧ Gen.rmdKPrime.getLast? = some 0 ∧
+    ([2, 3, 5, 7].zip Gen.rmdK.tail).all (fun pc => isScaledRoot 2 30 pc.1 pc.2) = true ∧
+    ([2, 3, 5, 7].zip Gen.rmdKPrime).all (fun pc => isScaledRoot 3 30 pc.1 pc.2) = true ∧
+    Gen.rmdIV = [0x67452301, 0xEFCDAB89, 0x98BADCFE, 0x10325476, 0xC3D2E1F0] ∧
+    (Gen.rmdR ++ Gen.rmdRPrime).all (fun r => (List.range 16).all (fun i => r.count i == 1) && r.length == 16) = true ∧
+    (Gen.rmdS ++ Gen.rmdSPrime).all (fun r => r.all (fun s => decide (5 ≤ s ∧ s ≤ 15)) && r.length == 16) = true ∧
+    Gen.rmdR.length = 5 ∧ Gen.rmdRPrime.length = 5 ∧ Gen.rmdS.length = 5 ∧ Gen.rmdSPrime.length = 5 := by
+  decide +kernel
+
+/-- **sha_padding_spec** (SHA-256): `pad` in `sha256_chip.rs` (`k = 512 − (l + 65) % 512` zero bits
+after the `1` bit, i.e. `0x80` and `k / 8` zero bytes, then the 64-bit length) is the FIPS padding: the
+least number of zero bytes making the total a multiple of 64; the padded length is a multiple of
+64, exceeds the message by at most 72 bytes, and the padding is injective on messages shorter
+than `2^61` bytes. -/
+theorem sha256_padding_spec (k iv : List Nat) (m : List Nat) :
+    (sha256P k iv).padRust m = (sha256P k iv).pad m ∧
+    ((sha256P k iv).pad m).length % 64 = 0 ∧
+    ((sha256P k iv).pad m).length ≤ m.length + 72 ∧
+    (∀ m', 8 * m.length < 2 ^ 64 → 8 * m'.length < 2 ^ 64 →
+      (sha256P k iv).pad m = (sha256P k iv).pad m' → m = m') := by
+  refine ⟨?_, ?_, ?_, ?_⟩
+  · simp only [Sha2.padRust, Sha2.pad, Sha2.blockBytes, Sha2.wordBytes, Sha2.lenBytes, sha256P]
+    have : (8 * (16 * (32 / 8)) - (8 * m.length + 1 + 8 * (2 * (32 / 8))) % (8 * (16 * (32 / 8)))) / 8
+        = (16 * (32 / 8) - (m.length + 1 + 2 * (32 / 8)) % (16 * (32 / 8))) % (16 * (32 / 8)) := by omega
+    rw [this]
+  · rw [sha256_pad_eq, padG_length]; omega
+  · rw [sha256_pad_eq, padG_length]; omega
+  · intro m' h1 h2 h
+    rw [sha256_pad_eq, sha256_pad_eq] at h
+    exact padG_injective 64 8 m m' (by norm_num at h1 ⊢; omega) (by norm_num at h2 ⊢; omega) h
+
+/-- **sha_padding_spec** (SHA-512): block 128 bytes, 128-bit length field. -/
+theorem sha512_padding_spec (k iv : List Nat) (m : List Nat) :
+    (sha512P k iv).padRust m = (sha512P k iv).pad m ∧
+    ((sha512P k iv).pad m).length % 128 = 0 ∧
+    ((sha512P k iv).pad m).length ≤ m.length + 144 ∧
+    (∀ m', 8 * m.length < 2 ^ 128 → 8 * m'.length < 2 ^ 128 →
+      (sha512P k iv).pad m = (sha512P k iv).pad m' → m = m') := by
+  refine ⟨?_, ?_, ?_, ?_⟩
+  · simp only [Sha2.padRust, Sha2.pad, Sha2.blockBytes, Sha2.wordBytes, Sha2.lenBytes, sha512P]
+    have : (8 * (16 * (64 / 8)) - (8 * m.length + 1 + 8 * (2 * (64 / 8))) % (8 * (16 * (64 / 8)))) / 8
+        = (16 * (64 / 8) - (m.length + 1 + 2 * (64 / 8)) % (16 * (64 / 8))) % (16 * (64 / 8)) := by omega
+    rw [this]
+  · rw [sha512_pad_eq, padG_length]; omega
+  · rw [sha512_pad_eq, padG_length]; omega
+  · intro m' h1 h2 h
+    rw [sha512_pad_eq, sha512_pad_eq] at h
+    exact padG_injective 128 16 m m' (by norm_num at h1 ⊢; omega) (by norm_num at h2 ⊢; omega) h
+
+/-- Non-vacuity: one-byte message, and the 55/56 boundary (one vs two blocks). -/
+example : ((sha256P [] []).pad [0x61]).length = 64 ∧ ((sha256P [] []).pad (List.replicate 55 0)).length = 64 ∧
+    ((sha256P [] []).pad (List.replicate 56 0)).length = 128 ∧
+    ((sha512P [] []).pad (List.replicate 111 0)).length = 128 ∧
+    ((sha512P [] []).pad (List.replicate 112 0)).length = 256 := by decide +kernel
+
+/-- **spread_sum_even_odd.** The Maj / Σ₀ / Σ₁ / σ₀ / σ₁ gates of the SHA chips all have the form
+`~X + ~Y + ~Z = ~evn + 2·~odd` with `evn`, `odd` range-checked through the plain-spreaded table (so
+`~evn`, `~odd` are genuine spreads of `n`-bit words). Whatever the prover assigns, the identity forces
+`evn = X ⊕ Y ⊕ Z` and `odd = Maj(X, Y, Z)`: no freedom is left in the decomposition. Any bit length
+(`n = 32` for SHA-256 / RIPEMD-160, `n = 64` for SHA-512). -/
+theorem spread_sum_even_odd_3 (n x y z evn odd : Nat) (hx : x < 2 ^ n) (hy : y < 2 ^ n) (hz : z < 2 ^ n)
+    (he : evn < 2 ^ n) (ho : odd < 2 ^ n)
+    (h : spreadFuel n x + spreadFuel n y + spreadFuel n z = spreadFuel n evn + 2 * spreadFuel n odd) :
+    evn = x ^^^ y ^^^ z ∧ odd = maj x y z :=
+  spread_sum_even_odd n x y z evn odd hx hy hz he ho h
+
+example : spreadFuel 4 0b1100 + spreadFuel 4 0b1010 + spreadFuel 4 0b0110
+    = spreadFuel 4 0b0000 + 2 * spreadFuel 4 0b1110 := by decide
+
+/-- Two-term form (the two halves of `Ch`): `~X + ~Y = ~evn + 2·~odd` forces `odd = X ∧ Y`. -/
+theorem spread_sum_even_odd_2 (n x y evn odd : Nat) (hx : x < 2 ^ n) (hy : y < 2 ^ n)
+    (he : evn < 2 ^ n) (ho : odd < 2 ^ n)
+    (h : spreadFuel n x + spreadFuel n y = spreadFuel n evn + 2 * spreadFuel n odd) :
+    evn = x ^^^ y ∧ odd = x &&& y :=
+  spread_sum_even_odd2 n x y evn odd hx hy he ho h
+
+/-- The even and the odd bits of `~A + 2·~B` are `A` and `B`: what `get_even_and_odd_bits` (witness
+generation) extracts is the only decomposition the gate accepts. -/
+theorem even_odd_bits_of_spread_sum (n a b : Nat) (ha : a < 2 ^ n) (hb : b < 2 ^ n) :
+    evenBits n (spreadFuel n a + 2 * spreadFuel n b) = a ∧
+    oddBits n (spreadFuel n a + 2 * spreadFuel n b) = b := by
+  have := even_odd_of_spread_sum n a b
+  rwa [Nat.mod_eq_of_lt ha, Nat.mod_eq_of_lt hb] at this
+
+/-- **ch_via_spread.** `Ch(E, F, G) = (E ∧ F) + (¬E ∧ G)` as integers (the chip adds the odd halves of
+`~E + ~F` and `~(¬E) + ~G` with a plain field addition in the `half Ch` gate), and the spread of the
+complement is `MASK_EVN − ~E` as computed by `negate_spreaded`. -/
+theorem ch_via_spread_sum (w e f g : Nat) (he : e < 2 ^ w) :
+    ch w e f g = (e &&& f) + (notW w e &&& g) ∧
+    spreadFuel w (notW w e) + spreadFuel w e = spreadFuel w (2 ^ w - 1) :=
+  ⟨ch_via_spread w e f g he, spread_not w e he⟩
+
+/-- **mod_add_carry_unique.** In the `add mod 2^32` / `add mod 2^64` gates (`Σ sᵢ = r + carry·2^w`) a
+range-checked result leaves one choice for result and carry, namely the remainder and quotient. -/
+theorem mod_add_carry_unique_w (w s r c : Nat) (hr : r < 2 ^ w) (h : s = r + c * 2 ^ w) :
+    r = s % 2 ^ w ∧ c = s / 2 ^ w :=
+  mod_add_carry_unique w s r c hr h
+
+example : (0xffffffff + 0xffffffff + 5) % 2 ^ 32 = 3 ∧ (0xffffffff + 0xffffffff + 5) / 2 ^ 32 = 2 := by decide
+
+/-- The limb tables of the `Σ₀(A)` gate of `sha256_chip.rs` (generated from the source): with `A`
+decomposed in the 10-9-11-2 limbs of the `10-9-11-2 decomposition` gate, the three inner products
+`Σ 2^eᵢ·limbᵢ` of the gate are the rotations of `A` by 2, 13 and 22 bits (FIPS 180-4 (4.4)); `l b` is
+the limb of `b` bits. The gate uses the same exponents on the spreaded limbs (`spread_concat_limbs`). -/
+theorem sha256_Sigma0_gate_rotations (l : Nat → Nat)
+    (h10 : l 10 < 2 ^ 10) (h9 : l 9 < 2 ^ 9) (h11 : l 11 < 2 ^ 11) (h2 : l 2 < 2 ^ 2) :
+    let A := pow2Ip Gen.sha256DecA.1 (Gen.sha256DecA.2.map l)
+    A < 2 ^ 32 ∧
+    Gen.sha256Sigma0Gate.map (fun g => pow2Ip g.1 (g.2.map l))
+      = [rotr 32 A 2, rotr 32 A 13, rotr 32 A 22] := by
+  simp only [Gen.sha256DecA, Gen.sha256Sigma0Gate, pow2Ip, rotr, List.map, List.zipWith, List.foldl]
+  generalize l 10 = a at *
+  generalize l 9 = b at *
+  generalize l 11 = c at *
+  generalize l 2 = d at *
+  norm_num
+  refine ⟨by omega, by omega, by omega, by omega⟩
+
+/-- Same for the `Σ₁(E)` gate: limbs 7-12-2-5-6, rotations by 6, 11 and 25 bits (FIPS 180-4 (4.5)). -/
+theorem sha256_Sigma1_gate_rotations (l : Nat → Nat)
+    (h7 : l 7 < 2 ^ 7) (h12 : l 12 < 2 ^ 12) (h2 : l 2 < 2 ^ 2) (h5 : l 5 < 2 ^ 5) (h6 : l 6 < 2 ^ 6) :
+    let E := pow2Ip Gen.sha256DecE.1 (Gen.sha256DecE.2.map l)
+    E < 2 ^ 32 ∧
+    Gen.sha256Sigma1Gate.map (fun g => pow2Ip g.1 (g.2.map l))
+      = [rotr 32 E 6, rotr 32 E 11, rotr 32 E 25] := by
+  simp only [Gen.sha256DecE, Gen.sha256Sigma1Gate, pow2Ip, rotr, List.map, List.zipWith, List.foldl]
+  generalize l 7 = a at *
+  generalize l 12 = b at *
+  generalize l 2 = c at *
+  generalize l 5 = d at *
+  generalize l 6 = e at *
+  norm_num
+  refine ⟨by omega, by omega, by omega, by omega⟩
+
+/-- Spread of a limb concatenation: `~(a + 2^k·b) = ~a + 4^k·~b` — why `expr_pow4_ip` on spreaded limbs
+with the exponents of `expr_pow2_ip` is the spread of the recomposed word. -/
+theorem spread_concat_limbs (k n a b : Nat) (ha : a < 2 ^ k) :
+    spreadFuel (k + n) (a + 2 ^ k * b) = spreadFuel k a + 4 ^ k * spreadFuel n b :=
+  spread_concat k n a b ha
+
+/-- The plain-spreaded lookup tables only offer limb sizes that keep three-term sums of spreads
+inside the native field (`3·4^13 < p`), and contain the sizes the gates use. -/
+theorem lookup_lengths_ok :
+    Gen.sha256LookupLengths.all (fun n => decide (0 < n ∧ n ≤ 12)) = true ∧
+    Gen.sha512LookupLengths.all (fun n => decide (0 < n ∧ n ≤ 13)) = true ∧
+    [10, 9, 11, 2, 7, 12, 5, 6, 3, 4].all (fun n => Gen.sha256LookupLengths.contains n) = true ∧
+    7 * 2 ^ 64 < Gen.p ∧ 3 * 4 ^ 64 < Gen.p := by
   decide +kernel
 
 end MidnightZK.C07
